@@ -1417,6 +1417,13 @@ func ruleIDCounter(r *Run, rule string) {
 					continue
 				}
 				call, ok := in.(*ssa.Call)
+				// the typed form: var counter atomic.Uint32; id = counter.Add(1)
+				if ok && (calleeName(call.Common()) == "(*sync/atomic.Uint32).Add" || calleeName(call.Common()) == "(*sync/atomic.Uint64).Add") && len(call.Call.Args) == 2 && call.Call.Args[0] == ssa.Value(g) {
+					n++
+					delta := NewCanon(w).S(call.Call.Args[1])
+					r.Check(delta == "c(1)", rule, "id-counter:"+w.Name(fn), w.InstrPos(in)+" "+w.Name(fn), "id = counter.Add(1) on an atomic counter", "counter delta is "+delta)
+					continue
+				}
 				if ok && calleeName(call.Common()) == "sync/atomic.AddUint32" {
 					n++
 					delta := NewCanon(w).S(call.Call.Args[1])
